@@ -49,14 +49,23 @@ def property_files(pid):
         text = open(f).read()
         if re.search(r"^Theorem\s+\w+", text, flags=re.M):
             out.append(os.path.basename(f)[:-2])
+    # document-level link corollaries shared by several properties (theorems are attributed by their name prefix)
+    if pid in DOCLEVEL_OWNERS and os.path.exists(os.path.join(d, "DocLevel.v")):
+        out.append("DocLevel")
     return out
+
+
+DOCLEVEL_OWNERS = {"C03": ("C03_",), "C04": ("C04_", "DocLevel_"), "C05": ("C05_",), "C10": ("C10_",)}
 
 
 def theorems_of(pid):
     out = []
     for m in property_files(pid):
         text = open(os.path.join(VERIF, "coq", "Properties", m + ".v")).read()
-        out.extend((m, t) for t in re.findall(r"^Theorem\s+(\w+)", text, flags=re.M))
+        names = re.findall(r"^Theorem\s+(\w+)", text, flags=re.M)
+        if m == "DocLevel":
+            names = [t for t in names if t.startswith(DOCLEVEL_OWNERS.get(pid, ()))]
+        out.extend((m, t) for t in names)
     return out
 
 
